@@ -148,6 +148,14 @@ def pmap(fn, items, workers=None):
         return list(ex.map(fn, items))
 
 
+def ffloat(x):
+    """float(x) for messages: an exact value too large for a double becomes inf instead of raising."""
+    try:
+        return float(x)
+    except OverflowError:
+        return float("inf") if x > 0 else float("-inf")
+
+
 class InfraError(Exception):
     pass
 
